@@ -298,6 +298,17 @@ def _k3(model: Model, rep: Report):
                     if gen_it != ("attr", lself, rf):
                         why = f"ranges over {show(gen_it)} instead of all references"
                     else:
+                        elt_ = comp[2]
+                        sentinel = None
+                        if is_call_of(elt_, "get") and len(list(elt_[2]) + list(elt_[3])) == 2 and tbl(elt_[1][1]):
+                            # ``m = lookup.get(op, SENTINEL)`` kept iff ``m is not SENTINEL``: the entry of a known key
+                            a_ = list(elt_[2]) + [x for _, x in elt_[3]]
+                            if a_[1] == ("call", "object", (), ()) or (a_[1][0] == "call" and a_[1][1] in ("object", ("global", "object"))):
+                                sentinel = a_[1]
+                                from ..sym import t_cmp as _cmp
+                                if list(conds) == [t_not(_cmp("is", elt_, sentinel))] or list(conds) == [t_not(_cmp("==", elt_, sentinel))]:
+                                    comp = ("comp", "list", ("sub", elt_[1][1], a_[0]), ((gen_it, (("in", a_[0], elt_[1][1]),)),))
+                                    conds = comp[3][0][1]
                         b_ = comp[2][2] if comp[2][0] == "sub" else None
                         mapped = comp[2][0] == "sub" and tbl(comp[2][1]) and b_ is not None and b_[0] == "bound"
                         # the only filter allowed: membership of that same element in that same lookup (unknown references are dropped, known ones kept)
